@@ -413,10 +413,12 @@ func bindParams(env *specEnv, sp *FuncSpec, callee *ssa.Function, args []Val) {
 func (c *Ctx) havocHeap(st State, name string) {
 	srt, ok := c.heapSort[name]
 	if !ok {
-		if cur, ok2 := st[name]; ok2 {
+		if cur, ok2 := st[name]; ok2 && !isMarker(cur) {
 			srt = cur.Sort
 		} else {
-			return // never referenced: nothing is known about it anyway
+			// not referenced so far: remember that it no longer has its entry value
+			st[name] = havocMarker
+			return
 		}
 	}
 	st[name] = c.fresh(name, srt)
@@ -425,6 +427,9 @@ func (c *Ctx) havocHeap(st State, name string) {
 func (c *Ctx) havocAll(st State) {
 	for _, k := range sortedKeys(st) {
 		if k == "$alloc" || strings.HasPrefix(k, "$visited") || strings.HasPrefix(k, "ghost$") {
+			continue
+		}
+		if isMarker(st[k]) {
 			continue
 		}
 		st[k] = c.fresh(k, st[k].Sort)
